@@ -16,6 +16,14 @@ def main():
     sys.setrecursionlimit(20000)
     res = {'job': job_id, 'module': mod_name, 'tier': tier}
     t0 = time.time()
+    cov = None
+    if os.environ.get('VERIF_COVERAGE'):
+        # development aid (tools/coverage.sh): line coverage of lib/yaml under the symbolic exploration, sys.monitoring core
+        os.environ.setdefault('COVERAGE_CORE', 'sysmon')
+        import coverage
+        cov = coverage.Coverage(data_file=os.path.join(os.environ['VERIF_COVERAGE'], 'cov.%s.%d' % (mod_name, os.getpid())),
+                                include=[os.path.join(hlib.REPO_LIB, 'yaml', '*')])
+        cov.start()
     try:
         from symex import models, engine
         mod = importlib.import_module('harness.' + mod_name)
@@ -42,6 +50,9 @@ def main():
     except BaseException as e:  # noqa
         res['status'] = 'ERROR'
         res['error'] = ''.join(traceback.format_exception(type(e), e, e.__traceback__))[-4000:]
+    if cov is not None:
+        cov.stop()
+        cov.save()
     res['total_wall_s'] = round(time.time() - t0, 2)
     with open(out, 'w') as f:
         json.dump(res, f)
